@@ -938,6 +938,12 @@ static std::vector<Bound> bounds_release(bool thorough) {
 
 static uint64_t hseed_of(const std::string& part, size_t bi, uint64_t rank) { return (std::hash<std::string>{}(part) * 1000003ull + bi) * 0x9E3779B97F4A7C15ull + rank * 0xD1B54A32D192ED03ull; }
 
+// a tree that crashes everywhere would cost one fork per case: after this many crashes in one shard the sweep is cut short
+// (the bound is then reported as not completed); deaths inside a release lookup do not count
+static const uint64_t CRASH_BUDGET = 30;
+static uint64_t crashes_here = 0;
+static void count_crash(Args& b) { if (!FLAGS["in_release_probe"] && ++crashes_here >= CRASH_BUDGET) { b.deadline_s = 0; benum::note("crash budget used up in this shard - sweep cut short"); } }
+
 static std::string death_key(const std::string& what, const std::string& err, const std::string& part) {
     std::string dc = benum::death_class(what, err);
     for (char& c : dc) if (c == ' ') c = '_';      // keys must not contain blanks
@@ -946,9 +952,10 @@ static std::string death_key(const std::string& what, const std::string& err, co
 }
 
 // part main / mp: rank = outer case, the child runs all stream subsets of it
-static void part_sweep(const Args& a, const std::string& part, const std::vector<Bound>& bounds) {
+static void part_sweep(const Args& a0, const std::string& part, const std::vector<Bound>& bounds) {
+    Args a = a0;
     SmallRunner R;
-    R.sampling = a.nshards == 1 || a.shard % 4 == a.seed % 4;
+    R.sampling = a.nshards == 1 || a.shard == (a.seed + 3) % a.nshards;
     bool complete = true;
     for (size_t bi = 0; bi < bounds.size(); ++bi) {
         const Bound& b = bounds[bi];
@@ -966,7 +973,7 @@ static void part_sweep(const Args& a, const std::string& part, const std::vector
                 }
                 C["states"] += R.states.size();
             }, [&](uint64_t r, const std::string& what, const std::string& err) {
-                ++C["child_deaths"];
+                ++C["child_deaths"]; count_crash(a);
                 const Outer o = b.decode(r);
                 const unsigned mask = static_cast<unsigned>(FLAGS["cur_mask"]);
                 V.report(death_key(what, err, part), "the process died (" + what + ") in history: " + describe(o, mask) + " | " + benum::clean(err.substr(0, 400)),
@@ -980,7 +987,8 @@ static void part_sweep(const Args& a, const std::string& part, const std::vector
 }
 
 // part release: rank = (outer, stream subset)
-static void part_release(const Args& a, const std::vector<Bound>& bounds) {
+static void part_release(const Args& a0, const std::vector<Bound>& bounds) {
+    Args a = a0;
     SmallRunner R;
     bool complete = true;
     for (size_t bi = 0; bi < bounds.size() && complete; ++bi) {
@@ -996,7 +1004,7 @@ static void part_release(const Args& a, const std::vector<Bound>& bounds) {
             R.run(b.decode(cases[i].first), cases[i].second, true, hseed_of("release", bi, cases[i].first));
             C["states"] += R.states.size();
         }, [&](uint64_t i, const std::string& what, const std::string& err) {
-            ++C["child_deaths"];
+            ++C["child_deaths"]; count_crash(a);
             const Outer o = b.decode(cases[i].first);
             V.report(death_key(what, err, "release"), "the process died (" + what + ") in history: " + describe(o, cases[i].second) + " | " + benum::clean(err.substr(0, 400)),
                      "S:" + o.str() + ":" + std::to_string(cases[i].second) + ":R");
@@ -1069,7 +1077,7 @@ static bool run_long(const LongCase& c, bool probe_released) {
     uint64_t removals = ncomp; for (const auto& ob : h.objs) if (ob.arrived && ob.pending == 0) ++removals;
     benum::maxv("long_max_stash_removals_in_one_history", removals);
     C["long_histories_with_gc"] += h.gc_runs ? 1 : 0;
-    if (c.n <= 12000 && (f == 1 || f == 4 || f == 6 || f == 7)) benum::sample(h.text() + " => " + std::to_string(ncomp) + " completed, " + std::to_string(ninc) + " incomplete, stash collections inside add_item: " + std::to_string(h.gc_runs) + " [" + h.spec + "]");
+    if (c.n == 12000 && (f == 1 || f == 4 || f == 6 || f == 7)) benum::sample(h.text() + " => " + std::to_string(ncomp) + " completed, " + std::to_string(ninc) + " incomplete, stash collections inside add_item: " + std::to_string(h.gc_runs) + " [" + h.spec + "]");
     benum::setv("outcomes", std::string("long family ") + std::to_string(f) + " gc=" + (h.gc_runs ? "yes" : "no"));
     return !h.failed;
 }
@@ -1083,13 +1091,14 @@ static std::vector<LongCase> long_cases(bool thorough) {
     }
     return v;
 }
-static void part_long(const Args& a) {
+static void part_long(const Args& a0) {
+    Args a = a0;
     blockpool::poison_extent = ~static_cast<std::size_t>(0);
     const std::vector<LongCase> cs = long_cases(a.thorough);
     benum::Isolation iso; iso.case_timeout_s = 120;
     const bool complete = benum::run_isolated(a, 0, cs.size(), [&](uint64_t r) { run_long(cs[r], NDEBUG_BUILD); },
         [&](uint64_t r, const std::string& what, const std::string& err) {
-            ++C["child_deaths"];
+            ++C["child_deaths"]; count_crash(a);
             V.report(death_key(what, err, "long"), std::string("the process died (") + what + ") in long history N=" + std::to_string(cs[r].n) + " family '" + FAMILY[cs[r].family] + "' | " + benum::clean(err.substr(0, 400)), long_spec(cs[r], NDEBUG_BUILD));
             FLAGS["in_release_probe"] = 0;
         }, iso);
